@@ -76,6 +76,39 @@ MUTANTS = [
     ("C16-cms5-stale-output-on-job-failure", "C16", P + "template/cms/r5/runner.sh",
      "    cmsRun analyzer_cfg.py\n", "    cmsRun analyzer_cfg.py || echo 'job failed, converting what is there'\n"),
     ("C16-atlas-make-ignored", "C16", P + "template/atlas/r21/runner.sh", "   make\nelse", "   make || true\nelse"),
+    # ---------------- C05
+    ("C05-no-clear-after-fill", "C05", P + "common/ast_to_cpp_translator.py",
+     "            if rep_is_collection(e[0]):\n                self._gc.add_statement(statement.container_clear(e[1][1]))",
+     "            if rep_is_collection(e[0]) and False:\n                self._gc.add_statement(statement.container_clear(e[1][1]))"),
+    ("C05-clear-only-first-vector", "C05", P + "common/ast_to_cpp_translator.py",
+     "            if rep_is_collection(e[0]):\n                self._gc.add_statement(statement.container_clear(e[1][1]))",
+     "            if rep_is_collection(e[0]):\n                self._gc.add_statement(statement.container_clear(e[1][1]))\n                break"),
+    ("C05-first-flag-static", "C05", P + "common/statement.py",
+     '            e.add_line(f"{v.cpp_type()} {v.as_cpp()}{init_value};")',
+     '            e.add_line(f"{\'static \' if v.as_cpp().startswith(\'is_first\') else \'\'}{v.cpp_type()} {v.as_cpp()}{init_value};")'),
+    ("C05-accumulator-class-member", "C05", P + "common/ast_to_cpp_translator.py",
+     "        accumulator_scope.declare_variable(accumulator)\n",
+     "        self._gc.declare_class_variable(accumulator)\n"),
+    ("C05-2d-storage-class-member", "C05", P + "common/ast_to_cpp_translator.py",
+     "                    scope.declare_variable(storage)\n",
+     "                    self._gc.declare_class_variable(storage)\n"),
+    ("C05-atlas-swallow-event-exception", "C05", P + "template/atlas/r21/query.cxx",
+     "  {% for l in query_code %}\n  {{l}}\n  {% endfor %}\n",
+     "  try {\n  {% for l in query_code %}\n  {{l}}\n  {% endfor %}\n  } catch (const std::exception &e) { return StatusCode::SUCCESS; }\n"),
+    # ---------------- C06
+    ("C06-atlas-no-ana-check", "C06", P + "atlas/xaod/event_collections.py",
+     "'ANA_CHECK (evtStore()->retrieve(result, collection_name));'", "'evtStore()->retrieve(result, collection_name).ignore();'"),
+    ("C06-aod-constant-label", "C06", P + "cms/aod/event_collections.py",
+     "'iEvent.getByLabel(collection_name, result);'", "'iEvent.getByLabel(\"muons\", result);'"),
+    ("C06-mini-shared-token-again", "C06", P + "cms/miniaod/event_collections.py",
+     "        t_name = unique_name(\"token\")\n", "        t_name = \"token_shared\"\n"),
+    ("C06-long-bank-truncated", "C06", P + "common/cpp_ast.py",
+     "        rep = visitor.get_rep(dest)\n        repl_list += [(arg, rep.as_cpp())]",
+     "        rep = visitor.get_rep(dest)\n        repl_list += [(arg, rep.as_cpp() if len(rep.as_cpp()) < 24 else rep.as_cpp()[:23] + '\"')]"),
+    ("C06-atlas-muons-as-electrons", "C06", P + "atlas/xaod/event_collections.py",
+     "atlas_xaod_event_collection_collection('xAOD::MuonContainer', 'xAOD::Muon')", "atlas_xaod_event_collection_collection('xAOD::ElectronContainer', 'xAOD::Electron')"),
+    ("C06-mini-handle-check-skipped", "C06", P + "cms/miniaod/event_collections.py",
+     "            f\"iEvent.getByToken({t_name}, result);\",", "            f\"if (!iEvent.getByToken({t_name}, result)) {{ static const typename std::remove_reference<decltype(*result)>::type empty; result.set(std::shared_ptr<const typename std::remove_reference<decltype(*result)>::type>(&empty, [](const void*){{}})); }}\","),
     # ---------------- C17
     ("C17-swallow-docker-exception", "C17", P + "common/local_dataset.py",
      "                    self._docker_image,\n                )\n                raise e\n",
